@@ -771,6 +771,8 @@ func (r *FileRestorer) restoreNode(n dst.Node, parentName, parentField, parentFi
 
 		// Init: Type
 		out.Type = &ast.FuncType{}
+		r.Ast.Nodes[n.Type] = out.Type
+		r.Dst.Nodes[out.Type] = n.Type
 
 		// Decoration: Start
 		r.applyDecorations(out, "Start", n.Decs.Start, false)
